@@ -172,7 +172,8 @@ def r2(ctx):
     META = "barter::engine::EngineMeta"
     ws = [w for w in whomay.writers_of(ctx.facts, META, "sequence") if not common.is_test(ctx.facts, w[0])
           and not common.is_derived(ctx.facts, whomay.owner_fn(w[0]))]
-    owners = sorted(set(mir.short(whomay.owner_fn(w[0])) for w in ws))
+    # (a private constructor-like helper no rule names counts as the functions that call it)
+    owners = sorted(set(mir.short(o) for w in ws for o in common.effective_owners(ctx.facts, w[0])))
     allowed = {"Engine::new", "Engine::reset_metadata", "Engine::audit", "StateReplicaManager::new"}
     ctx.check("EngineMeta.sequence", set(owners) <= allowed, "the engine's sequence is (re)initialised only at construction / reset",
               got=owners, want=sorted(allowed), key="writers")
@@ -421,8 +422,11 @@ def r7(ctx):
     tab = sorted((render_guard(g), render(v)) for g, v, bi in t.expanded_cases(0))
     ctx.check("EngineAudit::is_terminal", tab == [("(self is FeedEnded)", "1"), ("(self is Process)", "ProcessAudit::is_terminal(self.as:Process.0)")],
               "FeedEnded is terminal; a Process record defers to the record", got=tab, key="table")
-    L(ctx, "StateReplicaManager::replica_engine_state_mut", ctx.fibody(name="replica_engine_state_mut", self_adt=SRM, trait=""),
-      "the replica's state is the one inside the replica's own tick", ret="self.state_replica.event", effects=[], key="view")
+    # (the private accessor may have been inlined away: then the accesses read `self.state_replica.event` directly, which R4 sees)
+    acc = ctx.find(name="replica_engine_state_mut", self_adt=SRM, trait="", optional=True)
+    if acc:
+        L(ctx, "StateReplicaManager::replica_engine_state_mut", ctx.ibody(acc),
+          "the replica's state is the one inside the replica's own tick", ret="self.state_replica.event", effects=[], key="view")
     L(ctx, "Sequence::value", ctx.fibody(name="value", self_adt="barter::Sequence", trait=""), "the counter's value", ret="self.0", effects=[], key="view")
 
 
